@@ -12,7 +12,8 @@ Case (plain data):
               own Field subclass `_validate` raises that exception on the text "boom"
   default : the field's default (plaintext for a challenge field)
   environ : {name: value}   the whole process environment of the case
-  ops     : ["build"] | ["load", n, value] | ["assign", value] | ["reset"]
+  ops     : ["build"] | ["build", {name: value}, label] (os.environ is replaced by this map, then a configuration
+            of the same schema is constructed) | ["load", n, value] | ["assign", value] | ["reset"]
             load n: the document follows the first n keys of `path`; n = len(path) gives the field
             `value`, a smaller n ends in an empty map (n = 0: the empty document)
   style   : "attr" (sub-schemas without setting are created by Schema.__getattr__) | "explicit"
@@ -226,12 +227,21 @@ def decoys(path, exp, value):
     return {c: value for c in cands if c}
 
 
-def make_case(tree, path, kname, envstate, ops, style, tag, with_decoys=True):
-    kind, default, valid, invalid, v1, v2, v3, bad = KIND_DATA[kname]
+VALID_B = {"int": "42", "str": "env2", "bool": "off", "list": "y", "dict": "y", "chal1": "envpw2", "chal0": "envpw2"}
+
+
+def make_environ(tree, path, kname, envstate, with_decoys=True, valid=None, invalid=None):
+    """the whole process environment for one construction: the field's own variable in the given state,
+    decoys of the opposite validity under every other spelling, nothing that a sibling is bound to"""
+    kind, default, kvalid, kinvalid, v1, v2, v3, bad = KIND_DATA[kname]
+    valid = kvalid if valid is None else valid
+    invalid = kinvalid if invalid is None else invalid
     exp = bound(expected_names(tree)[".".join(path)])
     environ = {}
     if envstate == "valid2":      # a valid variable whose validated value is falsy
         valid = {"int": "0", "bool": "off"}.get(kname, valid)
+    if envstate == "validb":      # another valid text (the variable changed between constructions)
+        valid = VALID_B.get(kname, "fine2")
     if with_decoys:
         environ.update(decoys(path, exp, invalid if envstate != "invalid" else valid))
     # siblings must stay untouched by the decoys
@@ -242,14 +252,41 @@ def make_case(tree, path, kname, envstate, ops, style, tag, with_decoys=True):
     if exp:
         if envstate == "empty":
             environ[exp] = ""
-        elif envstate in ("valid", "valid2"):
+        elif envstate in ("valid", "valid2", "validb"):
             environ[exp] = valid
         elif envstate == "invalid":
             environ[exp] = invalid
         else:
             environ.pop(exp, None)
+    return environ
+
+
+def make_case(tree, path, kname, envstate, ops, style, tag, with_decoys=True):
+    kind, default, valid, invalid, v1, v2, v3, bad = KIND_DATA[kname]
+    environ = make_environ(tree, path, kname, envstate, with_decoys)
     return {"tree": tree, "path": path, "kind": kind, "default": default, "environ": environ, "ops": ops,
             "style": style, "tag": tag, "envstate": envstate}
+
+
+def env_build(tree, path, kname, envstate, **kw):
+    """the environment changes to `envstate`, then a configuration of the same schema is constructed"""
+    return ["build", make_environ(tree, path, kname, envstate, **kw), envstate]
+
+
+def change_ops(tree, path, kname, which):
+    kind, default, valid, invalid, v1, v2, v3, bad = KIND_DATA[kname]
+    depth = len(path)
+
+    def b(st):
+        return env_build(tree, path, kname, st)
+    if which == 0:   # set, change, unset, empty, invalid, valid again
+        return [b("valid"), ["load", depth, v1], b("validb"), ["load", depth, v1], ["assign", v2], b("unset"),
+                ["load", depth, v1], b("empty"), ["reset"], b("invalid"), ["assign", v2], b("valid"), ["reset"],
+                b("validb"), ["build"]]
+    if which == 1:   # invalid first
+        return [b("invalid"), b("valid"), b("unset"), b("validb"), b("invalid"), b("empty")]
+    return [b("unset"), ["load", depth, v1], b("valid"), ["load", depth, v3], ["reset"], b("empty"),
+            ["load", depth, v1], b("validb"), ["load", depth - 1, None]]
 
 
 def std_ops(kname, depth):
@@ -301,6 +338,17 @@ def generate(rng, tier):
                 for st in ("invalid", "valid", "unset"):
                     tree, path = path_tree(r, [m] * (depth - 1), f, siblings=(depth == 1))
                     cases.append(make_case(tree, path, kname, st, std_ops(kname, depth), styles[n % 3], "raise%d" % depth))
+                    n += 1
+    # the environment changes between constructions of configurations of one schema
+    for depth in (1, 2, 3):
+        for r, m, f in [(True, None, None), ("APP", None, None), (None, None, "FV"), (False, True, True)]:
+            for kname in ["int", "str", "bool", "chal0", "raise-validator-KeyError", "list", "chal1"]:
+                for which in (0, 1, 2):
+                    tree, path = path_tree(r, [m] * (depth - 1), f, siblings=(depth == 1))
+                    c = make_case(tree, path, kname, "unset", change_ops(tree, path, kname, which), styles[n % 3],
+                                  "envchange%d" % depth)
+                    c["envstate"] = "changing"
+                    cases.append(c)
                     n += 1
     # random: deeper, odd names, random histories
     for _ in range(1500 if tier == "quick" else 30000):
@@ -376,8 +424,10 @@ def random_case(rng):
             ops.append(["assign", rng.choice(vals)])
         elif r < 0.9:
             ops.append(["reset"])
-        else:
+        elif rng.random() < 0.5:
             ops.append(["build"])
+        else:
+            ops.append(["build", None, rng.choice(["unset", "empty", "valid", "validb", "invalid"])])
     c = make_case(tree, path, kname, "unset", ops, rng.choice(["attr", "explicit", "item"]), "random",
                   with_decoys=rng.random() < 0.7)
     # the environment of a random case: its own valid / invalid strings
@@ -390,6 +440,10 @@ def random_case(rng):
             c["environ"][exp] = valid
         elif st == "invalid":
             c["environ"][exp] = invalid
+    wd = rng.random() < 0.7
+    for op in c["ops"]:
+        if op[0] == "build" and len(op) == 3:
+            op[1] = make_environ(tree, path, kname, op[2], with_decoys=wd, valid=valid, invalid=invalid)
     return c
 
 
@@ -438,6 +492,10 @@ def _py(v):
     return v
 
 
+def g_environ(env):
+    return g_list(sorted(env.items()), lambda kv: "(%s,%s)" % (g_str(kv[0]), g_str(kv[1])))
+
+
 def gcase(c):
     depth = len(c["path"])
     dv = default_value(c)
@@ -445,7 +503,12 @@ def gcase(c):
 
     def gop(op):
         if op[0] == "build":
-            return "OBuild"
+            if len(op) > 1:
+                return "(GBuild %s)" % g_environ(op[1])
+            return "(GOp OBuild)"
+        return "(GOp %s)" % geop(op)
+
+    def geop(op):
         if op[0] == "reset":
             return "OReset"
         if op[0] == "assign":
@@ -457,7 +520,7 @@ def gcase(c):
                 return "(OLoad %s)" % arg
             return "(ONested %s)" % arg
         raise Broken("bad op %r" % (op,))
-    environ = g_list(sorted(c["environ"].items()), lambda kv: "(%s,%s)" % (g_str(kv[0]), g_str(kv[1])))
+    environ = g_environ(c["environ"])
     return "(%s, %s, %s, %s, %s, %s)" % (g_tree(c["tree"]), g_list(c["path"], g_str), g_kind(c["kind"]), gd,
                                          environ, g_list(c["ops"], gop))
 
@@ -614,6 +677,9 @@ def _impl(case):
     for v in [case["default"]] + list(case["environ"].values()) + [op[-1] for op in case["ops"] if len(op) > 1]:
         if isinstance(v, str):
             plaintexts.add(v)
+    for op in case["ops"]:
+        if op[0] == "build" and len(op) > 1:
+            plaintexts.update(op[1].values())
 
     def canon_value(v):
         if isinstance(v, DigestValue):
@@ -644,16 +710,32 @@ def _impl(case):
         h = holder(cfg)
         return (canon_value(h._data[path[-1]]), path[-1] not in h._default_value_keys)
 
+    all_leaves = [".".join(p) for p, _, _ in leaves(case["tree"])]
+
+    def defined(cfg):
+        """the public is_value_defined of every field of the schema"""
+        from cincoconfig import is_value_defined
+        out = []
+        for dotted in all_leaves:
+            try:
+                out.append(bool(is_value_defined(cfg, dotted)))
+            except Exception:  # noqa
+                out.append(Other(6))
+        return out
+
     cfg = None
     trace = []
     for op in case["ops"]:
         out = "ok"
         if op[0] != "build" and cfg is None:
-            trace.append(("unmodelled", None))
+            trace.append(("unmodelled", None, None))
             continue
         try:
             if op[0] == "build":
                 cfg = None
+                if len(op) > 1:       # the process environment changes before this construction
+                    os.environ.clear()
+                    os.environ.update(op[1])
                 cfg = schema()
             elif op[0] == "assign":
                 setattr(holder(cfg), path[-1], _py(op[1]))
@@ -675,7 +757,7 @@ def _impl(case):
             raise
         except Exception as e:  # noqa
             out = ("err", _errkind(e))
-        trace.append((out, state(cfg)))
+        trace.append((out, state(cfg), defined(cfg) if op[0] in ("build", "reset") and cfg is not None else None))
     return (names, trace)
 
 
@@ -699,9 +781,11 @@ def oracle(case, obs):
     exp = bound(exp_names[".".join(path)])
     kind = case["kind"]
     depth = len(path)
-    envv = case["environ"].get(exp) if exp else None
+    environ = case["environ"]
+    envv = environ.get(exp) if exp else None
     active = bool(envv)
     dv = default_value(case)
+    all_leaves = [".".join(p) for p, _, _ in leaves(tree)]
 
     def built():
         """value right after construction, or 'fail'"""
@@ -713,8 +797,12 @@ def oracle(case, obs):
         return dv
     cur = None
     alive = False
-    for i, (op, (out, st)) in enumerate(zip(case["ops"], trace)):
+    for i, (op, (out, st, defs)) in enumerate(zip(case["ops"], trace)):
         if op[0] == "build":
+            if len(op) > 1:       # every construction reads the environment as it is then
+                environ = op[1]
+                envv = environ.get(exp) if exp else None
+                active = bool(envv)
             b = built()
             if b == "fail":
                 if out == "ok":
@@ -722,6 +810,9 @@ def oracle(case, obs):
                 elif out != ("err", ("validation", ".".join(path))):
                     bad.append("build: op %d: invalid variable: expected a validation error naming %s, got %r"
                                % (i, ".".join(path), out))
+                else:
+                    alive = False
+                    continue
                 return bad
             if out != "ok":
                 bad.append("build: op %d: construction failed (%r) although the variable is %s" %
@@ -729,7 +820,7 @@ def oracle(case, obs):
                 return bad
             cur, alive = b, True
         elif not alive:
-            return bad
+            continue
         elif op[0] == "reset":
             cur = built()
         elif op[0] == "assign":
@@ -760,6 +851,19 @@ def oracle(case, obs):
             bad.append("value: op %d (%s): field holds %r, the precedence rule gives %r (variable %s)" %
                        (i, op[0], None if st is None else st[0], cur, "%s=%r" % (exp, envv) if exp else "unbound"))
             return bad
+        # C12: a fresh configuration reports every field as not user-defined (a value supplied by the
+        # environment is a default, as the unchanged code marks it); a reset restores that status
+        if op[0] == "build" and defs is not None:
+            for dotted, d in zip(all_leaves, defs):
+                if d is not False:
+                    bad.append("fresh: op %d: field %s reported as user-defined (%r) on a freshly built configuration%s"
+                               % (i, dotted, d, " (value from %s=%r)" % (exp, envv) if active and dotted == ".".join(path) else ""))
+        if op[0] == "reset" and defs is not None:
+            for dotted, d in zip(all_leaves, defs):
+                if d is not False:
+                    bad.append("reset: op %d: field %s reported as user-defined (%r) after reset_value(%s)%s"
+                               % (i, dotted, d, ".".join(path),
+                                  " (value from %s=%r)" % (exp, envv) if active and dotted == ".".join(path) else ""))
     return bad
 
 
@@ -819,9 +923,11 @@ def tags(case, obs):
     if in_f20(case):
         t.add("region:F20")
     if isinstance(obs, tuple) and len(obs) == 2 and isinstance(obs[1], list):
-        for op, (out, st) in zip(case["ops"], obs[1]):
+        for op, (out, st, _defs) in zip(case["ops"], obs[1]):
             o = "no-config" if out == "unmodelled" else out if isinstance(out, str) else "err"
             nm = op[0]
+            if op[0] == "build" and len(op) > 1:
+                nm = "build-after-env-change:%s" % op[2]
             if op[0] == "load":
                 nm = "load-leaf" if op[1] == depth else ("load-rebuild" if (op[1] >= 1 and depth > 1) else "load-none")
             t.add("%s:%s" % (nm, o))
